@@ -17,6 +17,7 @@ import sys, os
 sys.path.insert(0, os.path.dirname(os.path.dirname(os.path.abspath(__file__))))
 import itertools
 import math
+import traceback
 import warnings
 import numpy as np
 import h5py
@@ -28,6 +29,7 @@ from bounded.common import *
 
 warnings.filterwarnings("ignore")
 NAMES = ["a", "b", "cell 1", "x/y", "z/y"]
+MIXED_NAMES = ["10x_A3", "7", "GSM123", "cellB", "2cell", "cell10", "cell9"]
 PER_SIG = 2  # violations recorded per failure class (all are counted as evaluations)
 
 
@@ -83,9 +85,22 @@ class Run:
             return None
 
     # ------------------------------------------------------------------
-    def one_file(self, tname, bins, symm, cells, bins_form, order="given", input_form="df", extra_pix=False):
+    def one_file(self, tname, bins, symm, cells, bins_form, order="given", input_form="df", extra_pix=False,
+                 float_counts=False):
+        """never lets an exception escape: anything unexpected becomes a recorded failure with the case"""
+        try:
+            self._one_file(tname, bins, symm, cells, bins_form, order, input_form, extra_pix, float_counts)
+        except Exception as e:
+            case = dict(table=tname, symmetric_upper=symm, bins_form=bins_form, insertion=order, input_form=input_form,
+                        extra_pixel_column=extra_pix, cells=[[k, m] for k, m, _ in cells])
+            self.check("file-examined:no-exception", False, case,
+                       f"{type(e).__name__}: {str(e)[:300]}\n{traceback.format_exc(limit=5)}", "no exception", True, "plain")
+
+    def _one_file(self, tname, bins, symm, cells, bins_form, order="given", input_form="df", extra_pix=False,
+                  float_counts=False):
         """cells: list of (key, matrix name, dense matrix).  bins_form in
-        plain | single+extra | per-cell | per-cell-mixed"""
+        plain | single+extra | per-cell | per-cell-mixed.  float_counts: fractional counts (multiples of 0.25,
+        exact in binary) stored with the value type override dtypes={'count': float}"""
         B = self.B
         self.nfile += 1
         n = len(bins)
@@ -95,11 +110,16 @@ class Run:
             "name-with-slash" if any("/" in k for k in keys) else "plain"
         case0 = dict(table=tname, symmetric_upper=symm, bins_form=bins_form, insertion=order, input_form=input_form,
                      extra_pixel_column=extra_pix, cells=[[k, m] for k, m, _ in cells])
+        if float_counts:
+            case0["counts"] = "fractional; dtypes={'count': float}"
         path = B.path(f"f{self.nfile}.scool")
         # ---- inputs
         pix, extras = {}, {}
         for ci, (k, mname, A) in enumerate(cells):
             p = pixels_from_dense(A, symm)
+            if float_counts:
+                frac = np.array([0.5, 1.25, 2.75, 0.25])[(np.arange(len(p)) + ci) % 4]
+                p["count"] = p["count"].to_numpy().astype(float) * 0.25 + frac
             if extra_pix:
                 p["foo"] = (np.arange(len(p)) + 0.5 + ci).astype(float)
             pix[k] = p
@@ -141,6 +161,8 @@ class Run:
         kw = {}
         if extra_pix:
             kw = dict(columns=["count", "foo"], dtypes={"foo": float})
+        if float_counts:
+            kw["dtypes"] = dict(kw.get("dtypes", {}), count=float)
         nt = any(len(p) for p in pix.values())
         r = self.guarded("create_scool", case0, lambda: (cooler.create_scool(path, bins_arg, pix_arg, symmetric_upper=symm,
                                                                              ordered=True, **kw), True)[1], kind)
@@ -192,8 +214,10 @@ class Run:
         for ci, (k, mname, A) in enumerate(cells):
             case = dict(case0, cell=k)
             loc = "/cells/" + k
-            with h5py.File(path, "r") as f:
-                present = loc in f and f[loc].attrs.get("format", None) == "HDF5::Cooler"
+            def _present():
+                with h5py.File(path, "r") as f:
+                    return loc in f and f[loc].attrs.get("format", None) == "HDF5::Cooler"
+            present = bool(self.guarded("cell-stored-under-its-name", case, _present, kind))
             self.check("cell-stored-under-its-name", present, case, "no collection at " + loc, loc, True, kind)
             if not present:
                 if "/" in k:
@@ -213,12 +237,18 @@ class Run:
             got = self.guarded("cell-pixels==given", case, lambda: clr.pixels()[:], kind)
             if got is not None:
                 ok = list(got.columns) == list(p.columns) and all(canon(got[c]) == canon(p[c]) for c in p.columns) \
-                    and got["count"].dtype.kind in "iu"
+                    and got["count"].dtype.kind in ("f" if float_counts else "iu")
                 self.check("cell-pixels==given", ok, case, canon(got), canon(p), cnt, kind)
             F = full_matrix(p, n, symm)
             got = self.guarded("cell-matrix==given", case, lambda: clr.matrix(balance=False)[:], kind)
             if got is not None:
                 self.check("cell-matrix==given", got.shape == F.shape and np.array_equal(got, F), case, canon(got), canon(F), cnt, kind)
+            if float_counts:
+                got = self.guarded("cell-matrix==given", dict(case, sparse=True),
+                                   lambda: clr.matrix(balance=False, sparse=True)[:].toarray(), kind)
+                if got is not None:
+                    self.check("cell-matrix==given", got.shape == F.shape and np.array_equal(got, F), dict(case, sparse=True),
+                               canon(got), canon(F), cnt, kind)
             if len(names0) > 1:
                 c0, c1 = names0[0], names0[-1]
                 i0 = [i for i, c in enumerate(common["chrom"]) if c == c0]
@@ -230,7 +260,7 @@ class Run:
                                dict(case, fetch=[c0, c1]), canon(got), canon(expb), bool(expb.any()), kind)
             got = self.guarded("cell-info==given", case, lambda: clr.info, kind)
             if got is not None:
-                exp = {"nnz": len(p), "sum": int(p["count"].sum()), "nbins": n, "nchroms": len(names0),
+                exp = {"nnz": len(p), "sum": float(p["count"].sum()) if float_counts else int(p["count"].sum()), "nbins": n, "nchroms": len(names0),
                        "storage-mode": "symmetric-upper" if symm else "square", "format": "HDF5::Cooler"}
                 g = {q: canon(got.get(q)) for q in exp}
                 self.check("cell-info==given", g == exp, case, g, exp, cnt, kind)
@@ -258,7 +288,7 @@ class Run:
                 others = [p_ for p_, x in addr.items() if x == a and p_ != f"{rel}/bins/{col}"]
                 self.check("extra-bin-columns-kept-per-cell", a is not None and not others, dict(case, column=col),
                            others if a is not None else "missing", "a dataset of its own", True, kind)
-            if ci == 0 and self.nfile % 3 == 0 and not extra_pix:
+            if ci == 0 and self.nfile % 3 == 0 and not extra_pix and not float_counts:
                 res = self.guarded("cell-pixels==given", dict(case, via="cli dump"),
                                    lambda: self.runner.invoke(cli, ["dump", uri], catch_exceptions=False), kind)
                 if res is not None:
@@ -299,6 +329,15 @@ class Run:
 def main():
     B = Bounded("C17", "bounded/C17.py")
     B.max_violations = 40
+    try:
+        body(B)
+    except Exception as e:  # the runner must ALWAYS end with the JSON line
+        B.fail("runner-completed", dict(stage="main"), f"{type(e).__name__}: {str(e)[:300]}\n{traceback.format_exc(limit=6)}",
+               "no exception", "runner-completed:exception")
+    return B.finish()
+
+
+def body(B):
     R = Run(B)
     T = dict(bin_tables(small=not B.thorough))
     mats = lambda n: matrices(n, random.Random(B.seed), 5)
@@ -307,6 +346,22 @@ def main():
 
     # B. matrix sweep (plain names): all singles / ordered pairs (/ triples) of the 5 matrices
     tabs_b = list(T) if B.thorough else ["fixed10-short-last", "variable"]
+    B.bound = (("thorough: " if B.thorough else "quick: ") + f"{len(T)} common bin tables; matrix sweep: ALL singles and ordered "
+               "pairs" + (" and triples (2 tables)" if B.thorough else "") + f" of the 5 C01 matrices (empty, diagonal, dense, sparse, "
+               f"corners) on {len(tabs_b)} tables x " + ("2 storage modes" if B.thorough else "storage modes (both / symmetric only)") +
+               "; table sweep: every table x 2 modes x 4 bin-table forms "
+               "(single plain, single with extra column, per-cell dict with differing extra column, per-cell dict with "
+               "differing SETS of extra columns) x " + ("3" if B.thorough else "2 of 3 (rotating)") +
+               " pixel input forms (DataFrame, dict of arrays, iterator of chunks incl. "
+               "the empty iterator), every 5th with an extra pixel value column; name sweep: ALL non-empty subsets of <= 3 "
+               "of {a, b, 'cell 1', x/y, z/y} x bin forms x both dict insertion orders; value-type sweep: every table x 2 modes x " + ("3" if B.thorough else "2 of 3 (rotating)") +
+               " input forms with FRACTIONAL counts under dtypes={'count': float} (2-4 cells, different per cell); mixed-name "
+               "sweep: ALL non-empty subsets of <= 4 of {10x_A3, 7, GSM123, cellB, 2cell" + (", cell10, cell9" if B.thorough else "") + "} (digit- and "
+               "letter-leading names in one file) x bin forms"
+               + ("; 400 seeded random files (1-4 random names, random matrices)" if B.thorough else ""))
+    B.rule = ("case = (table, mode, bin form, insertion order, input form, [(cell name, matrix)], cell, query); non-trivial when "
+              "the cell has at least one pixel (content checks) / always (structure checks); distinct by case")
+    B.exhaustive = not B.thorough
     q = 0
     for tname in tabs_b:
         bins, ms = T[tname], mats_of[tname]
@@ -327,6 +382,29 @@ def main():
                     q += 1
                     cells = [("a", ms[2][0], ms[2][1]), ("b", ms[0][0], ms[0][1]), ("cell 1", ms[3][0], ms[3][1])]
                     R.one_file(tname, bins, symm, cells, bf, "given" if q % 2 else "reversed", inp, extra_pix=(q % 5 == 0))
+    # D. value type override: fractional counts with dtypes={'count': float}, different per cell
+    for tname, bins in T.items():
+        ms = mats_of[tname]
+        for symm in (True, False):
+            for ii, inp in enumerate(("df", "dict", "chunks")):
+                q += 1
+                if not B.thorough and (ii + symm + len(bins)) % 3 == 0:
+                    continue   # quick: two of the three input forms per (table, mode), rotating
+                cells = [("a", ms[2][0], ms[2][1]), ("b", ms[0][0], ms[0][1]), ("cell 1", ms[3][0], ms[3][1]),
+                         ("d", ms[4][0], ms[4][1])][: 2 + (q % 3)]
+                R.one_file(tname, bins, symm, cells, forms[(q + ii) % 4], "given" if q % 2 else "reversed", inp,
+                           extra_pix=(q % 4 == 0), float_counts=True)
+    # E. cell names that mix digit-leading and letter-leading spellings in one file
+    tname = "fixed10-short-last"
+    bins, ms = T[tname], mats_of[tname]
+    for r in (1, 2, 3, 4):
+        for sub in itertools.combinations(MIXED_NAMES if B.thorough else MIXED_NAMES[:5], r):
+            for bf in (forms if B.thorough else ["plain", "per-cell"]):
+                q += 1
+                if not B.thorough and r == 1 and bf != "plain":
+                    continue
+                cells = [(k, ms[(i + q) % 5][0], ms[(i + q) % 5][1]) for i, k in enumerate(sub)]
+                R.one_file(tname, bins, q % 2 == 0, cells, bf, "given" if q % 2 else "reversed", float_counts=(q % 5 == 0))
     # A. name sweep LAST (names with "/" are a known failure class): all non-empty subsets of <= 3 of the 5 names
     tname = "fixed10-short-last"
     bins, ms = T[tname], mats_of[tname]
@@ -360,20 +438,6 @@ def main():
                 cells.append((k, f"random#{it}", A))
             B.rng.shuffle(cells)
             R.one_file(tname, bins, symm, cells, forms[it % 4], "given", ("df", "dict", "chunks")[it % 3])
-    B.bound = (("thorough: " if B.thorough else "quick: ") + f"{len(T)} common bin tables; matrix sweep: ALL singles and ordered "
-               "pairs" + (" and triples (2 tables)" if B.thorough else "") + f" of the 5 C01 matrices (empty, diagonal, dense, sparse, "
-               f"corners) on {len(tabs_b)} tables x " + ("2 storage modes" if B.thorough else "storage modes (both / symmetric only)") +
-               "; table sweep: every table x 2 modes x 4 bin-table forms "
-               "(single plain, single with extra column, per-cell dict with differing extra column, per-cell dict with "
-               "differing SETS of extra columns) x " + ("3" if B.thorough else "2 of 3 (rotating)") +
-               " pixel input forms (DataFrame, dict of arrays, iterator of chunks incl. "
-               "the empty iterator), every 5th with an extra pixel value column; name sweep: ALL non-empty subsets of <= 3 "
-               "of {a, b, 'cell 1', x/y, z/y} x bin forms x both dict insertion orders"
-               + ("; 400 seeded random files (1-4 random names, random matrices)" if B.thorough else ""))
-    B.rule = ("case = (table, mode, bin form, insertion order, input form, [(cell name, matrix)], cell, query); non-trivial when "
-              "the cell has at least one pixel (content checks) / always (structure checks); distinct by case")
-    B.exhaustive = not B.thorough
-    return B.finish()
 
 
 if __name__ == "__main__":
